@@ -6,7 +6,10 @@ CHECKS = [
     {"property_id": "C01",
      "text": "Completeness of the modelled schemes is a Coq theorem for every field, trapdoor, degree, polynomial, point, hiding bound and RNG tape; "
              "the model is compared with the library on generated honest transcripts (commitments, randomness, proofs, decisions, RNG draws).",
-     "note": COMMON_NOTE + " Modelled for C01: KZG10 and MarlinKZG10 (trim/commit/open/check/batch_open/batch_check with degree bounds and hiding)." + ""},
+     "note": COMMON_NOTE + " Modelled for C01: KZG10, MarlinKZG10 (trim/commit/open/check/batch_open/batch_check with degree bounds and hiding), SonicKZG10 "
+             "(trim/commit/open/check with degree bounds and hiding; end-to-end completeness theorem), the multilinear PST of multilinear_pc "
+             "(setup/trim/commit/open/check; completeness under every trimmed key), PST13's division and streaming KZG (see C15, C14). IPA, Hyrax and "
+             "the code-based schemes are judged by the implementation-level completeness oracle only."},
     {"property_id": "C16",
      "text": "Coq theorems (unbounded): every LinearCombination operator and every operator sequence acts on values as the corresponding arithmetic; "
              "evaluate_query_set maps exactly the queried (label, point) keys to the polynomial's value; SuccinctCheckPolynomial::evaluate equals Horner "
@@ -15,8 +18,9 @@ CHECKS = [
      "note": COMMON_NOTE + " Modelled: data_structures.rs LinearCombination operators (terms as ordered list), lib.rs evaluate_query_set (BTreeMap as ordered "
              "association list), ipa_pc SuccinctCheckPolynomial::{evaluate,compute_coeffs}. Not modelled: string labels (numeric labels printed fixed-width)."},
 ]
-GENERIC = (" All other schemes behind the PolynomialCommitment trait (Sonic, IPA, PST13, Hyrax, univariate/multilinear Ligero, Brakedown) are "
-           "exercised by the same generated histories and judged by implementation-level oracles (supporting search, not proof) until their models land.")
+GENERIC = (" Sonic's single-point flow (keys, commitments, proofs, decisions and mutated verifier runs) is compared with its extracted model as Marlin's is. "
+           "The other schemes behind the PolynomialCommitment trait (IPA, PST13 commit/open, Hyrax, univariate/multilinear Ligero, Brakedown) are "
+           "exercised by the same generated histories and judged by implementation-level oracles (supporting search, not proof).")
 CHECKS += [
     {"property_id": "C02",
      "text": "Coq theorems: KZG10 check rejects value+d for every d<>0 (unconditional), accepts another point iff W*h*(z'-z)=0, another commitment "
